@@ -36,7 +36,7 @@ func init() {
 			Why: "an 'expired' hint error (which callers may accept) is produced only by the time checks, after issuer/signature/acr passed (C02)",
 			Req: []string{"fail(oidc.CheckExpiration($claims, $v.Offset)) || fail(oidc.CheckIssuedAt($claims, $v.MaxAgeIAT, $v.Offset)) || fail(oidc.CheckAuthTime($claims, $v.MaxAge))"}},
 		{ID: "E1.hint.claims-returned", Fn: "op.VerifyIDTokenHint", P: []string{"ctx", "token", "v", "claims", "err"}, Kind: "ret any", Pat: "ret($claims, _)", Max: 4},
-		{ID: "E8.hint.verifier-per-request-issuer", Fn: "op.(*Provider).IDTokenHintVerifier", P: []string{"o", "ctx"}, Kind: "ret any", Pat: "ret(op.NewIDTokenHintVerifier(op.IssuerFromContext($ctx), $o.idTokenHinKeySet, __))", Max: 1,
+		{ID: "E8.hint.verifier-per-request-issuer", Fn: "op.(*Provider).IDTokenHintVerifier", P: []string{"o", "ctx"}, Kind: "ret any", Pat: "ret(op.NewIDTokenHintVerifier(op.IssuerFromContext($ctx), $o.idTokenHinKeySet, __))", Max: 1, Only: true,
 			Why: "the hint must name the issuer of the request at hand (a provider may serve several issuers)"},
 		{ID: "E8.hint.verifier-per-request-issuer.only", Fn: "op.(*Provider).IDTokenHintVerifier", Kind: "ret any", Max: 1},
 		{ID: "E1.hint.caller.authorize", Fn: "op.ValidateAuthReqIDTokenHint", P: []string{"ctx", "idTokenHint", "verifier"}, Kind: "ret ok", Pat: "ret($claims.GetSubject(), nil)", Max: 1,
